@@ -194,6 +194,15 @@ func (w *world) Ops() []seqx.Op {
 	for j := range w.recent() {
 		ops = append(ops, op{Kind: "dup", N: j})
 	}
+	// after a long run: a duplicate of a packet that arrived 100 / 5000
+	// positions ago (still within the reordering window)
+	if w.long && w.nops <= 2 {
+		for _, back := range []int64{100, 5000} {
+			if i := w.info[w.cursor-back]; i != nil && i.delivered && w.highest-(w.cursor-back) <= window {
+				ops = append(ops, op{Kind: "dupback", N: int(back)})
+			}
+		}
+	}
 	if w.cycle && w.nops == 0 {
 		// exactly 2^16 packets withheld in all: the 16-bit seqno shift is 0
 		// again although the interval table is not empty
@@ -350,6 +359,12 @@ func (w *world) apply(o seqx.Op) *core.Violation {
 			return nil
 		}
 		return w.deliver(h[x.N], x.Tid)
+	case "dupback":
+		p := w.cursor - int64(x.N)
+		if i := w.info[p]; i == nil || !i.delivered {
+			return nil
+		}
+		return w.deliver(p, 0)
 	case "dup":
 		d := w.recent()
 		if x.N >= len(d) {
